@@ -77,7 +77,9 @@ def norm_point(p: dict) -> dict:
     q["desc"] = d
     for key in ("env", "flux", "ss", "ssflux"):
         q[key] = fn_to_dict(p[key])
-    for key in ("evu", "evs", "epu", "eps", "rcu", "rcs", "rfu", "rfs", "qcu", "qcs", "qfu", "qfs"):
+    d["vals"] = {}
+    rc_keys = ("rcu", "rcs", "rfu", "rfs", "qcu", "qcs", "qfu", "qfs")
+    for key in ("evu", "evs", "epu", "eps") + rc_keys + tuple(k + "_m" for k in rc_keys):
         q[key] = {a: fn_to_dict(row) for a, row in fn_to_dict(p[key]).items()}
     return q
 
@@ -92,7 +94,7 @@ def build(pt: dict, inits: dict | None = None):
     for q in d["pars"]:
         m.add_parameter(q, env[q])
     for v in d["vars"]:
-        if inits is None and v in d.get("init", {}):
+        if v in d.get("init", {}):
             # the initial value is an assignment rule of parameters (and earlier variables): the model's initial state
             # is what the specification evaluated for this point
             from mxlpy import InitialAssignment
@@ -109,9 +111,30 @@ def build(pt: dict, inits: dict | None = None):
     return m, env
 
 
+def _stored(x) -> str:
+    """What a raw parameter / variable stores: a number (exact) or an assignment RULE (function name and arguments)."""
+    from mxlpy import InitialAssignment
+
+    if isinstance(x, InitialAssignment):
+        return f"rule:{getattr(x.fn, '__name__', '?')}({','.join(x.args)})"
+    return float(x).hex()
+
+
 def content_of(model) -> dict:
-    return {"parameters": {k: float(v) for k, v in model.get_parameter_values().items()},
-            "initial": {k: float(v) for k, v in model.get_initial_conditions().items()}}
+    """Parameter values and initial values as the property means them: what the model answers now, what it STORES
+    (a rule must still be a rule), and what it answers after an edit of every parameter (a copy is edited, the model
+    itself is only read): an initial value that follows a parameter must still follow it."""
+    import copy
+
+    out = {"parameters": {k: float(v) for k, v in model.get_parameter_values().items()},
+           "initial": {k: float(v) for k, v in model.get_initial_conditions().items()},
+           "stored_parameters": {k: _stored(p.value) for k, p in model.get_raw_parameters().items()},
+           "stored_initial": {k: _stored(v.initial_value) for k, v in model.get_raw_variables().items()}}
+    if any(s.startswith("rule:") for s in out["stored_initial"].values()):
+        probe = copy.deepcopy(model)
+        probe.update_parameters({k: 2.0 * v for k, v in out["parameters"].items()})
+        out["initial_after_doubling_every_parameter"] = {k: float(v) for k, v in probe.get_initial_conditions().items()}
+    return out
 
 
 def close(obs: float, exp: float, rel: float, abs_: float) -> bool:
